@@ -97,6 +97,8 @@ type world struct {
 	bs     *blobstream.Service
 	hdrs   map[uint64]*header.ExtendedHeader
 	head   uint64
+	// single manipulations that were accepted although the claim is false (signature attribution)
+	badSingles map[string]bool
 }
 
 // The model's world (Proofs.tla SqBlobs) and its large-blob sibling (squares 3, 4: same structure).
@@ -112,7 +114,7 @@ func worldCases() map[int]blobsq.Case {
 
 func newWorld(t *testing.T, rep *vh.Report, ctx context.Context) *world {
 	w := &world{t: t, ctx: ctx, rep: rep, rng: vh.Rand(), blocks: map[int]*blobsq.Block{}, mem: blobsq.NewMemGetter(),
-		coms: map[[2]int]nodeblob.Commitment{}, hdrs: map[uint64]*header.ExtendedHeader{}}
+		coms: map[[2]int]nodeblob.Commitment{}, hdrs: map[uint64]*header.ExtendedHeader{}, badSingles: map[string]bool{}}
 	for id, c := range worldCases() {
 		b, err := blobsq.Build(c, uint64(id), vh.Seed(), w.rng)
 		if err != nil {
@@ -988,7 +990,26 @@ func (w *world) judge(c Case, r result, fam string) {
 	case len(c.Tampers) == 0 && !accepted:
 		rep.Violate(fmt.Sprintf("C12/%s/honest-rejected", c.Kind), fmt.Sprintf("%s: the proof the node produced does not verify: %s %s", c, r.outcome, r.detail), rp)
 	case accepted && !r.truth:
-		rep.Violate(fmt.Sprintf("C12/%s/accepted-false-claim/%s", c.Kind, first), fmt.Sprintf("%s: accepted although the claim is false", c), rp)
+		// signature = the single manipulation that is already accepted on its own, if there is one
+		// (single-manipulation cases run first), so that one root cause has one signature
+		cause := ""
+		for _, t := range c.Tampers {
+			k := c.Kind + "/" + strings.Join(t, ".")
+			if len(c.Tampers) == 1 {
+				w.badSingles[k] = true
+			}
+			if w.badSingles[k] && cause == "" {
+				cause = strings.Join(t, ".")
+			}
+		}
+		if cause == "" {
+			var ts []string
+			for _, t := range c.Tampers {
+				ts = append(ts, strings.Join(t, "."))
+			}
+			cause = strings.Join(ts, "+")
+		}
+		rep.Violate(fmt.Sprintf("C12/%s/accepted-false-claim/%s", c.Kind, cause), fmt.Sprintf("%s: accepted although the claim is false", c), rp)
 	case c.Kind == "inc" && r.truth && r.outcome != "true":
 		rep.Violate("C12/inc/own-proof-refused", fmt.Sprintf("%s: blob in block and proof is the node's own, answer %s %s", c, r.outcome, r.detail), rp)
 	case !accepted && r.truth && fam == "model" && (c.Verdict == "ok" || c.Verdict == "true") && honestEquivalent(c):
